@@ -682,7 +682,7 @@ def c04(ctx):
 
 
 # --------------------------------------------------------------------------- schemas
-NTYPES = 30
+NTYPES = 31
 
 
 def sg_cfg(mode, shard, nshards, mutevery):
@@ -720,7 +720,7 @@ def c08(ctx):
     ctx.absorb(ctx.vh_run(args, timeout=3000), args, label="schema/conforming")
     return ctx.finish(
         "model_checking",
-        rule="cases = every inhabitant (up to the value bound) of each of 30 types of the catalogue: every representation "
+        rule="cases = every inhabitant (up to the value bound) of each of 31 types of the catalogue: every representation "
              "strategy (struct map with renames / tuple / stringjoin / listpairs, union keyed / kinded / stringprefix, enum "
              "string / int, typed maps and lists), each nested in others, every optional / nullable / both combination; TLC "
              "checks FromRepr(ReprOf(tv)) = tv and FromType(Feed(tv)) = tv on the specification and emits (type, type-level "
@@ -743,7 +743,7 @@ def c09(ctx):
         "model_checking",
         rule="cases = every local mutation (dropped / duplicated / renamed-to-unknown / renamed-to-another-name / nulled / "
              "retyped / reordered / extra entry or element / wrong container / out-of-range scalar, at every position) of the "
-             "type-level input and of the representation of a hashed sample of the inhabitants of each of the 30 types; "
+             "type-level input and of the representation of a hashed sample of the inhabitants of each of the 31 types; "
              "FromType / FromRepr of Schema.tla give the verdict and, when accepted, the typed value; the harness feeds each "
              "tree to bindnode's builders under recover(): a panic, an acceptance of a non-conforming tree, a refusal of a "
              "conforming one or a node that does not read back as the specified typed value is a disagreement; "
@@ -800,4 +800,44 @@ def c13(ctx):
              "level, input)",
         assumptions=["observational equivalence is decided through the common specification: both engines must agree with "
                      "Schema.tla on every case (three-way comparison)"],
+        exhaustive=not quick)
+
+
+# --------------------------------------------------------------------------- binding
+BD_CFG = """SPECIFICATION Spec
+CONSTANTS
+  GoTypes <- GenTypes
+  Nested <- GenNested
+  MaxOps = %d
+INVARIANTS AlwaysSucceeds Emit
+PROPERTIES RegistryMonotone
+CHECK_DEADLOCK FALSE
+"""
+
+
+@prop("C19")
+def c19(ctx):
+    quick = ctx.tier == "quick"
+    # (1) purity: every history of bind calls, each in a fresh process (the state in question is process-global)
+    f = os.path.join(ctx.scratch, "bind.ndjson")
+    ctx.tlc("BindGen", BD_CFG % 3, capture=f, workers=8, timeout=2400)
+    args = ["bindhist", "-in", f, "-every", "4" if quick else "1"]
+    ctx.absorb(ctx.vh_run(args, timeout=3000), args, label="bind/histories")
+    # (2) faithfulness: every inhabitant of the library's types
+    fconf = schema_cases(ctx, "conforming", 1, "conf")
+    args = ["bindval", "-in", fconf]
+    ctx.absorb(ctx.vh_run(args, timeout=3000), args, label="bind/values")
+    return ctx.finish(
+        "model_checking",
+        rule="(1) histories = every sequence of 3 calls from Prototype / Wrap / build+Unwrap / Marshal+Unmarshal x 3 named Go "
+             "types (one containing another) x explicit or inferred schema that contains an inferred bind (TLC, exhaustive; "
+             "quick tier replays every 4th), each run in a fresh process: every call must succeed and give the result it "
+             "gives alone; (2) values = every inhabitant TLC enumerates for the 20 catalogue types that have a hand-declared "
+             "Go type in the library (struct fields, slices, Keys/Values map structs, pointers for optional / nullable, double "
+             "pointers for both, union structs, int8 / uint8 / uint16 / int32 / uint64 at their boundaries): the Go value is "
+             "constructed by an independent reflection walker, Wrap must expose the specified type-level and representation "
+             "views, build+Unwrap must return the same Go value, Marshal+Unmarshal (dag-cbor, dag-json) must reproduce it; "
+             "non-trivial = every case; distinct = distinct histories / (type, value)",
+        assumptions=["the Go-type vocabulary is a finite hand-written library, not a quantifier TLC ranges over",
+                     "an empty slice / map and a nil one hold the same data; Keys order is canonicalised after a sorting codec"],
         exhaustive=not quick)
